@@ -34,6 +34,15 @@ func witnessStateful(t *testing.T, prop string, prof *eng.Profile, mk func() []e
 		if err != nil {
 			t.Fatalf("harness: bad witness %s: %v", f, err)
 		}
+		if len(tr.Genesis.Eco) > 0 {
+			tc := eng.TemplateChain()
+			if err := tc.Eco.ValidateGenesis(tc.Cdc, nil, tr.Genesis.Eco); err != nil {
+				// the configuration of this witness is (no longer) accepted by genesis
+				// validation: nothing to replay
+				fmt.Printf("witness %s: genesis rejected by ValidateGenesis (%v), skipped\n", filepath.Base(f), err)
+				continue
+			}
+		}
 		w := eng.Replay(tr, prof, func(format string, a ...interface{}) {
 			fmt.Printf("WITNESS-VIOLATION key=%s file=%s\n", tr.Key, f)
 			t.Fatalf(format, a...)
